@@ -29,6 +29,8 @@ CONSTANTS MinF, MaxF, \* MinF..MaxF files
           HintMode,   \* "none" | "any": without / also with a `lengths` hint (right or wrong)
           Orders,     \* "all": workers take tasks in any order; "few": first-to-last or last-to-first
           TrackOrder, \* TRUE: the order of the writes is part of the state (emission)
+          WidthCheck, PerFileCheck,   \* TRUE: the repaired code (fix 17c5db0 / cac8fbf); FALSE re-creates the pinned
+                      \* tree, used only to show that WidthOneNeverSilent / WrongHintNeverSilent discriminate
           Emit
 
 VARIABLES L,        \* L[j]: frames in file j
@@ -183,9 +185,10 @@ Take(w, t) ==
   /\ taken' = taken \cup {t}
   /\ UNCHANGED <<L, kw, hashint, hint, W, pc, j, lengths, bufw, buf, wcount, pos, shapes, werr, order, err>>
 
-(* _load_to_position: xyz = md.load(filename, **kw).xyz; arr[position:position+len(xyz)] = xyz;    *)
-(* return xyz.shape.  The slice is clipped to the buffer; the assignment needs equal extents along *)
-(* frames and atoms, except that an extent of one on the right-hand side is broadcast              *)
+(* _load_to_position: xyz = md.load(filename, **kw).xyz; the per-frame shape is checked against the  *)
+(* buffer (fix 17c5db0: a one-atom selection used to be broadcast); arr[position:position+len(xyz)]  *)
+(* = xyz; return xyz.shape.  The slice is clipped to the buffer; the assignment needs equal extents   *)
+(* along frames, except that a single frame on the right-hand side is broadcast                      *)
 Write(w) ==
   /\ pc = "run" /\ wtask[w] # 0
   /\ LET t   == wtask[w]
@@ -194,7 +197,8 @@ Write(w) ==
          wa  == Width(kw[t].at)
          lo  == Min(pos[t], Len(buf))
          hi  == Min(pos[t] + n, Len(buf))
-         fits == (hi - lo = n \/ n = 1) /\ (wa = bufw \/ wa = 1)
+         wok == IF WidthCheck THEN wa = bufw ELSE (wa = bufw \/ wa = 1)
+         fits == (hi - lo = n \/ n = 1) /\ wok
      IN IF fits
         THEN /\ buf' = [c \in 1..Len(buf) |->
                           IF c > lo /\ c <= hi
@@ -203,17 +207,17 @@ Write(w) ==
              /\ wcount' = [c \in 1..Len(buf) |-> IF c > lo /\ c <= hi THEN wcount[c] + 1 ELSE wcount[c]]
              /\ shapes' = [shapes EXCEPT ![t] = n]
              /\ UNCHANGED werr
-        ELSE /\ werr' = (IF werr = "" THEN "ValueError" ELSE werr)
+        ELSE /\ werr' = (IF werr # "" THEN werr ELSE IF WidthCheck /\ wa # bufw THEN "DataInvalid" ELSE "ValueError")
              /\ UNCHANGED <<buf, wcount, shapes>>
   /\ order' = (IF TrackOrder THEN Append(order, wtask[w]) ELSE order)
   /\ wtask' = [wtask EXCEPT ![w] = 0]
   /\ UNCHANGED <<L, kw, hashint, hint, W, pc, j, lengths, bufw, pos, taken, err>>
 
-(* shapes = proc.get() re-raises a worker's exception; then the total of the returned frame counts *)
-(* is compared with the allocation                                                                  *)
+(* shapes = proc.get() re-raises a worker's exception; then the returned frame counts are compared  *)
+(* with `lengths` file by file (fix cac8fbf; the pinned tree compared only the totals)               *)
 Gather ==
   /\ pc = "run" /\ taken = 1..NTasks /\ \A w \in 1..W : wtask[w] = 0
-  /\ err' = (IF werr # "" THEN werr ELSE IF Sum(shapes) # Len(buf) THEN "DataInvalid" ELSE "")
+  /\ err' = (IF werr # "" THEN werr ELSE IF (IF PerFileCheck THEN shapes # lengths ELSE Sum(shapes) # Len(buf)) THEN "DataInvalid" ELSE "")
   /\ pc' = "done"
   /\ UNCHANGED <<L, kw, hashint, hint, W, j, lengths, bufw, buf, wcount, pos, taken, wtask, shapes, werr, order>>
 
@@ -271,15 +275,15 @@ WrongHintRejected ==
 
 ShapeMismatchRejected == (Done /\ Cls = "atoms-mismatch") => err # ""
 
-(* the stronger statements; the transcription of the pinned tree breaks them (findings): a wrong  *)
-(* hint with the right total, or a one-atom selection next to wider ones, can return without error *)
+(* the pinned tree broke these two (a wrong hint with the right total, or a one-atom selection    *)
+(* next to wider ones, returned without error); ordinary invariants of the repaired transcription  *)
 WrongHintNeverSilent == (Done /\ Cls = "hint-wrong/same-total") => err # ""
 WidthOneNeverSilent  == (Done /\ Cls = "atoms-mismatch/width-one") => err # ""
 
 (* whatever is returned without an error has every cell filled from the right file region or is a *)
 (* silent misplacement: used to describe the deviating classes                                     *)
 SilentGarbage == Done /\ err = "" /\ (buf # DefCells \/ lengths # DefLengths)
-OnlyKnownSilentGarbage == SilentGarbage => Cls \in {"hint-wrong/same-total", "atoms-mismatch/width-one"}
+NoSilentGarbage == ~SilentGarbage
 
 (* ---- emission ----------------------------------------------------------------------- *)
 Forms ==
